@@ -183,8 +183,14 @@ func genQOps(rc *RunCtx, c QCfg) []Op {
 			}
 		case 3:
 			o = Op{Kind: "fin", A: int64(r.Intn(16)), B: int64(r.Intn(16))}
+			if r.Chance(1, 8) {
+				o.S = "atdeadline"
+			}
 		case 4:
 			o = Op{Kind: "req", A: int64(r.Intn(16)), B: int64(r.Intn(16)), C: reqDelays()}
+			if r.Chance(1, 6) {
+				o.S = "atdeadline"
+			}
 			if rc.Prop == "C04" && r.Chance(1, 4) {
 				o.S2 = genSpelling(r, c)
 			}
@@ -525,7 +531,7 @@ func (w *qWorld) exec(op Op) {
 		w.lastAdvance = d
 		w.settle()
 		w.resolveUncertain()
-		if w.enforce["C13"] || w.enforce["C08"] {
+		if w.enforce["C13"] || w.enforce["C08"] || w.enforce["C03"] {
 			w.checkStats()
 		}
 		if w.enforce["C08"] {
